@@ -446,11 +446,60 @@ def replay_main(qualname, recipes, obligation):
     sys.exit(0)
 
 
+def cmd_radius(req):
+    """Bounded stand-in (floating point is outside the real-arithmetic proof): evaluate the ball-radius expression of the real
+    _kdtree_leven for max_edits = 1..N in IEEE doubles and check fl(r)^2 >= 2 k^2 exactly (a radius rounded down would lose the
+    boundary pairs k substitutions of one letter by another)."""
+    import inspect, textwrap
+    import numpy as np
+    from fractions import Fraction as Fr
+    import pyrepseq.nn as nn
+    src = textwrap.dedent(inspect.getsource(nn._kdtree_leven))
+    tree = ast.parse(src)
+    expr = None
+    for n in ast.walk(tree):
+        if isinstance(n, ast.Dict):
+            for k, v in zip(n.keys, n.values):
+                if isinstance(k, ast.Constant) and k.value == "r":
+                    expr = v
+    if expr is None:
+        return {"ok": None, "note": "radius expression {'r': ...} not found in _kdtree_leven"}
+    code = compile(ast.Expression(expr), "<radius>", "eval")
+    bad = []
+    N = int(req.get("N", 10000))
+    for k in range(1, N + 1):
+        r = eval(code, {"np": np, "max_edits": k, "n_cpu": 1, "math": math})
+        # scipy compares squared distances in doubles: the boundary pair (k substitutions of one letter by another,
+        # squared histogram distance exactly 2 k^2) is kept iff fl(r * r) >= 2 k^2
+        if float(r) * float(r) < 2.0 * k * k:
+            bad.append(k)
+            if len(bad) >= 5:
+                break
+    out = {"ok": not bad, "checked": N, "expr": ast.unparse(expr), "bad": bad,
+           "criterion": "fl(r*r) >= 2 k^2 in IEEE doubles (what the squared-distance comparison of the KD-tree sees)"}
+    if bad:
+        confirmed = None
+        for k in bad:
+            seqs = ["A" * k, "C" * k]
+            res = nn.kdtree(seqs, max_edits=k)
+            if len(res) != 2:
+                confirmed = {"seqs": seqs, "max_edits": k, "kdtree": [tuple(int(x) for x in t) for t in res]}
+                break
+        out["witness"] = confirmed or {}
+        out["witness_confirms"] = confirmed is not None
+        if confirmed is None:
+            out["ok"] = True
+            out["note"] = f"criterion fails for max_edits in {bad} but the real kdtree still returns the boundary pairs there"
+    return out
+
+
 if __name__ == "__main__":
     cmd = sys.argv[1]
     req = json.load(open(sys.argv[2])) if len(sys.argv) > 2 else json.load(sys.stdin)
     try:
-        out = {"case": cmd_case, "falsify": cmd_falsify}[cmd](req)
+        out = {"case": cmd_case, "falsify": cmd_falsify, "radius": cmd_radius}[cmd](req)
     except Exception:
         out = {"error": traceback.format_exc()}
     json.dump(out, sys.stdout, default=str)
+
+
